@@ -192,8 +192,8 @@ def replay_layer(rep, prop, tier):
 FAMILIES = {
     "C03": ["canon", "gc", "gc", "npt", "hmc", "canon_noreset", "npt_noreset", "gc", "gcmix"],
     "C04": ["canon", "gc", "npt", "hmc", "gcmix"],
-    "C05": ["gc", "gc", "gc", "gcdrain"],
-    "C11": ["canon", "canon", "gc", "npt", "gcdrain"],
+    "C05": ["gc", "gc", "gc", "gcdrain", "gcmix"],
+    "C11": ["canon", "canon", "gc", "npt", "gcdrain", "gcmix"],
     "C12": ["canon", "canon", "hmc", "npt", "gc", "canon_noreset"],
     "C14": ["hmc"],
     "C20": ["canon", "gc", "npt", "hmc"],
@@ -235,7 +235,7 @@ def engine_check(prop, tier, level="model_checking", n_quick=240, n_thorough=240
         for name, entry in t["setup"]["moves"].items():
             kinds = {t["setup"]["mobj"][m]["kind"] for m in entry["elems"]}
             want = {"disp": "cdisp", "exch": "cexch"}.get(next(iter(kinds))) if len(kinds) == 1 else None
-            if entry["ctype"] == "plain" and want and name != "swap" and prop in ({"C11"} if want == "cdisp" else {"C05"}):
+            if entry["ctype"] == "plain" and want and name not in ("swap", "del2") and prop in ({"C11"} if want == "cdisp" else {"C05"}):
                 rep.violation(f"composite-type:{want}-built-as-plain", f"{prop}: the table entry '{name}' was built with + and * from {len(entry['elems'])} {next(iter(kinds))} moves but is a plain composite: its elements choose their particles independently (same particle twice, nothing reported)",
                               {"setup": t["setup"], "scenario_seed": t["setup"].get("scenario_seed"), "family": t["setup"].get("family")})
     fails, done, r = qtrace.validate(good)
